@@ -174,6 +174,7 @@ def gen_cfg(fam, depth, fail_one_in, extra=None):
     if extra:
         c.update(extra)
     c["Depth"] = depth
+    c["MaxTx"] = depth      # never binding: a behaviour is bounded by Depth
     c["FailOneIn"] = fail_one_in
     out = ["INIT GenInit", "NEXT GenNext", "INVARIANT Emit", "CHECK_DEADLOCK FALSE", "CONSTANTS", render(c)]
     return "\n".join(out) + "\n"
